@@ -184,15 +184,35 @@ def body_spec(texts, convert, matrix=None):
             "page": {"nrow": 1000000}}, padded
 
 
+_BATCH = [0]
+
+
 def check_body_batch(ctx, texts, convert, label):
-    """texts rendered as body cells of one document (reader level)"""
+    """texts rendered as body cells of one document (reader level); every third document has other columns
+    around the text columns - a grouping column that is taken out of the table (subline_by, or page_by shown as
+    heading rows) in front, then a Float and a Date column - conversion is a matter of the CELL, wherever it sits"""
     spec, padded = body_spec(texts, convert)
+    _BATCH[0] += 1
+    mixed = _BATCH[0] % 3 == 0 and len(padded) >= 4
+    if mixed:
+        nr = len(padded) // 4
+        lead = [{"name": "K", "dtype": "str", "values": ["SB0x0"] * nr},
+                {"name": "F", "dtype": "floatx", "values": ["1.5", "nan", "-0.0", "2.0"][:1] * nr},
+                {"name": "D", "dtype": "date", "values": ["2024-02-29"] * nr}]
+        if _BATCH[0] % 2:
+            lead = [lead[1], lead[0], lead[2]]
+        spec["df"]["cols"] = lead + spec["df"]["cols"]
+        spec["body"]["subline_by" if _BATCH[0] % 6 == 0 else "page_by"] = ["K"]
+        ctx.count("body_documents_with_removed_and_non_text_columns")
     o = H.build_and_encode(spec)
     if o.stage:
         ctx.violation(f"{o.stage} raised {type(o.exc).__name__}: {str(o.exc)[:120]}", {"texts": texts[:5]}, None)
         return
     doc = R.parse(o.out)
-    cells = [c for r in doc.rows() for c in r.cells]
+    if mixed:
+        cells = [c for r in doc.rows() if len(r.cells) == 6 for c in r.cells[2:]]
+    else:
+        cells = [c for r in doc.rows() for c in r.cells]
     if len(cells) != len(padded):
         ctx.violation(f"cell count {len(cells)} != {len(padded)} ({label})", {"texts": texts[:5]},
                       {"errors": str(doc.errors[:3])})
